@@ -275,6 +275,26 @@ def target_has_pending_compressed(
     return False
 
 
+def target_order_is_appendable(
+    target: ig.IterationGraph, output_layers: dict[str, TensorLayer]
+) -> bool:
+    """Whether the output layers are visited in an order in which the output can be appended.
+
+    Output layers must be visited in layer order until only dense layers remain, which can be
+    written in any order. Dense layers can otherwise be reordered freely among themselves, but not
+    while a compressed layer is still pending.
+    """
+    expected_layer = 0
+    node = target
+    while isinstance(node, ig.IterationNode):
+        layer = output_layers[node.index_variable]
+        if layer.layer != expected_layer and target_has_pending_compressed(node, output_layers):
+            return False
+        expected_layer += 1
+        node = node.next
+    return True
+
+
 def merge_assignment(
     target: ig.IterationGraph, expression: ig.IterationGraph, output_layers: dict[str, TensorLayer]
 ) -> Iterator[ig.IterationGraph]:
@@ -327,6 +347,8 @@ def to_iteration_graphs(
     }
 
     for target_graph in to_iteration_graphs_expression(assignment.target, formats, []):
+        if not target_order_is_appendable(target_graph, output_layers):
+            continue
         for expression_graph in to_iteration_graphs_expression(
             assignment.expression, formats, count(1)
         ):
